@@ -119,6 +119,8 @@ impl<T: Crdt> Machine<T> {
                         let fresh = match T::op_dot(&op) {
                             // a replica that has "forgotten" (reset_remove) no longer knows its own dots
                             Some(_) if self.forgot[r] => " fresh=na",
+                            // an actor used away from its own replica (`GA r a`, a != r) is the MISUSE the property excludes: no claim
+                            Some(_) if actor != r as u64 => " fresh=na",
                             Some(d) => {
                                 if self.ops.iter().any(|(n, o)| n != name && T::op_dot(o).as_deref() == Some(d.as_str())) {
                                     " fresh=FAIL"
